@@ -7,7 +7,8 @@ reg_ids = ["C07-fixed-indy-descriptor", "C07-fixed-condy-descriptor", "C07-fixed
   "C07-enum-constant", "C07-enum-constant-array", "C07-enum-constant-corpus", "C07-enum-constant-corpus-array",
   "C07-record-refs", "C07-record-shape", "C07-unknown-attributes", "C07-unknown-attributes-all-levels",
   "C07-module-data", "C07-module-data-refs", "C07-record-corpus", "C07-record-corpus-refs",
-  "C07-inner-name", "C07-inner-name-nested", "C07-inner-name-local-class", "C07-inner-name-outer-class"]
+  "C07-inner-name", "C07-inner-name-nested", "C07-inner-name-local-class", "C07-inner-name-outer-class",
+  "C07-code-unknown-attributes-written"]
 open_ids = [("C07-signature-fixture","ok (fail signature)"), ("C07-signature-corpus","ok (fail signature)"),
   ("C07-annotation-element-name","ok (fail element-name)")]
 reg = gen("regress"); op = gen("open")
